@@ -118,7 +118,11 @@ func str(r *hx.Rand) []byte {
 }
 
 // valid payload for a modelled message type; `irr` asks for one non-canonical detail where the format has one
-func validPayload(r *hx.Rand, cmd string, irr bool) []byte {
+func validPayload(r *hx.Rand, cmd string, irr bool, loose bool) []byte {
+	sizes := []int{0, 1, 2, 3, 5, 63, 64}
+	if loose {
+		sizes = []int{64, 65, 66, 70}
+	}
 	switch cmd {
 	case "ping", "pong":
 		return le(8, smallOrBoundary(r))
@@ -130,7 +134,7 @@ func validPayload(r *hx.Rand, cmd string, irr bool) []byte {
 	case "getaddr":
 		return nil
 	case "addr":
-		n := []int{0, 1, 2, 3, 63, 64, 65, 66, 70}[r.Intn(9)]
+		n := sizes[r.Intn(len(sizes))]
 		var es []byte
 		for i := 0; i < n; i++ {
 			es = append(es, addrEntry(r)...)
@@ -139,7 +143,7 @@ func validPayload(r *hx.Rand, cmd string, irr bool) []byte {
 	case "getheaders", "getblocks":
 		return cat([]byte{byte(r.U64())}, r.Bytes(32), r.Bytes(32))
 	case "inv":
-		n := []int{0, 1, 2, 3, 63, 64, 65, 66, 70}[r.Intn(9)]
+		n := sizes[r.Intn(len(sizes))]
 		return cat([]byte{byte(r.U64())}, le(4, uint64(n)), r.Bytes(32*n))
 	case "getdata":
 		return cat([]byte{byte(r.U64())}, r.Bytes(32))
@@ -264,30 +268,49 @@ func cmdBytes(r *hx.Rand, cmd string) []byte {
 	return []byte(cmd)
 }
 
-func genPayload(r *hx.Rand, cmd string) []byte {
+var fixedSize = map[string]int{"ping": 8, "pong": 8, "verack": 1, "getaddr": 0, "getheaders": 65, "getblocks": 65, "getdata": 33, "notfound": 32, "findnode": 20}
+
+// `loose` = this case may use a mode that is known to decode to a message whose re-encoding differs (trailing bytes,
+// lists beyond the cap, ignored irregular flags): kept rare so that the known classes do not drown the failure list.
+func genPayload(r *hx.Rand, cmd string, loose bool) []byte {
+	// irregular data is an error for these (or leads into an explored-only branch): no known class involved
+	irrRejected := cmd == "verack" || cmd == "members" || cmd == "headers" || cmd == "getmembers" || cmd == "consensus"
 	switch r.Intn(12) {
 	case 0, 1, 2, 3:
-		return validPayload(r, cmd, false)
+		return validPayload(r, cmd, false, loose)
 	case 4:
-		return validPayload(r, cmd, true)
+		return validPayload(r, cmd, loose || irrRejected, loose)
 	case 5, 6: // truncation
-		p := validPayload(r, cmd, r.Chance(20))
+		p := validPayload(r, cmd, r.Chance(20) && (loose || irrRejected), loose)
 		if len(p) > 0 {
-			p = p[:r.Intn(len(p))]
+			n := len(p)
+			if cmd == "version" && !loose && n > 76 {
+				n = 76 // a cut inside SoftVersion is accepted with "" (known class): keep that for loose cases
+			}
+			p = p[:r.Intn(n)]
 		}
 		return p
 	case 7: // trailing bytes
-		return cat(validPayload(r, cmd, false), r.Bytes(1+r.Intn(6)))
+		if loose {
+			return cat(validPayload(r, cmd, false, false), r.Bytes(1+r.Intn(6)))
+		}
+		return validPayload(r, cmd, false, false)
 	case 8, 9: // hostile counts
 		switch cmd {
 		case "addr":
 			c := hostile64[r.Intn(len(hostile64))]
+			if c >= 1<<63 && r.Chance(70) {
+				c = hostile64[r.Intn(11)]
+			}
 			k := r.Intn(4)
-			if c <= 70 && r.Chance(60) {
+			if c <= 64 && r.Chance(60) || c <= 70 && loose {
 				k = int(c)
 			}
-			if r.Chance(10) {
+			if loose && r.Chance(30) {
 				k = 66 + r.Intn(4)
+			}
+			if !loose && uint64(k) > c {
+				k = int(c)
 			}
 			var es []byte
 			for i := 0; i < k; i++ {
@@ -300,11 +323,14 @@ func genPayload(r *hx.Rand, cmd string) []byte {
 		case "inv":
 			c := hostile32[r.Intn(len(hostile32))]
 			k := r.Intn(4)
-			if c <= 70 && r.Chance(60) {
+			if c <= 64 && r.Chance(60) || c <= 70 && loose {
 				k = int(c)
 			}
-			if r.Chance(10) {
+			if loose && r.Chance(30) {
 				k = 66 + r.Intn(4)
+			}
+			if !loose && uint64(k) > c {
+				k = int(c)
 			}
 			return cat([]byte{byte(r.U64())}, le(4, c), r.Bytes(32*k))
 		case "findnodeack":
@@ -312,6 +338,9 @@ func genPayload(r *hx.Rand, cmd string) []byte {
 			out := cat(r.Bytes(20), []byte{1}, varbytes(str(r)), le(4, c))
 			k := r.Intn(4)
 			if c <= 4 {
+				k = int(c)
+			}
+			if !loose && uint64(k) > c {
 				k = int(c)
 			}
 			for i := 0; i < k; i++ {
@@ -325,6 +354,9 @@ func genPayload(r *hx.Rand, cmd string) []byte {
 			if c <= 4 {
 				k = int(c)
 			}
+			if !loose && uint64(k) > c {
+				k = int(c)
+			}
 			for i := 0; i < k; i++ {
 				out = cat(out, varbytes(str(r)), varbytes(str(r)))
 			}
@@ -332,13 +364,26 @@ func genPayload(r *hx.Rand, cmd string) []byte {
 		case "headers":
 			return cat(le(4, hostile32[r.Intn(len(hostile32))]), r.Bytes(r.Intn(8)))
 		case "version":
-			// hostile soft-version length
-			p := validPayload(r, cmd, false)
-			return cat(p[:76], varuint(hostile64[r.Intn(len(hostile64))]), r.Bytes(r.Intn(6)))
+			// hostile soft-version length (falls back to "" : a known class)
+			p := validPayload(r, cmd, false, false)
+			if loose {
+				return cat(p[:76], varuint(hostile64[r.Intn(len(hostile64))]), r.Bytes(r.Intn(6)))
+			}
+			return p
 		}
-		return validPayload(r, cmd, false)
+		return validPayload(r, cmd, false, loose)
 	default:
-		return r.Bytes(r.Intn(100))
+		if n, ok := fixedSize[cmd]; ok && !loose {
+			return r.Bytes(r.Intn(n + 1))
+		}
+		if cmd == "version" && !loose {
+			return r.Bytes(r.Intn(77))
+		}
+		p := r.Bytes(r.Intn(100))
+		if cmd == "addr" && len(p) >= 8 && r.Chance(85) {
+			p[7] &= 0x7f // count < 2^63 (the panic class has its own generator above)
+		}
+		return p
 	}
 }
 
@@ -364,7 +409,7 @@ func gen(r *hx.Rand, tier string, i int) string {
 		cmd = []string{"addr", "inv", "findnodeack", "members", "version"}[r.Intn(5)]
 	}
 	cb := cmdBytes(r, cmd)
-	p := genPayload(r, cmd)
+	p := genPayload(r, cmd, r.Chance(6))
 	switch r.Intn(10) {
 	case 0, 1, 2, 3, 4, 5:
 		return "D " + hx.Hex(cb) + " " + hx.Hex(p)
@@ -393,7 +438,12 @@ func gen(r *hx.Rand, tier string, i int) string {
 				length -= uint32(1 + r.Intn(int(length)))
 			}
 		case 4:
-			length = []uint32{pc.MAX_PAYLOAD_LEN + 1, 1<<32 - 1, 1 << 31, pc.MAX_PAYLOAD_LEN + 1 + uint32(r.Intn(1000))}[r.Intn(4)]
+			// mostly just above the cap (a tree that allocates before checking is caught by the allocation predicate
+			// without paying for 4 GB buffers on every case); the extremes are in the corpus and appear rarely here
+			length = []uint32{pc.MAX_PAYLOAD_LEN + 1, pc.MAX_PAYLOAD_LEN + 2, pc.MAX_PAYLOAD_LEN + 1 + uint32(r.Intn(1000)), pc.MAX_PAYLOAD_LEN + 1 + uint32(r.Intn(1<<20))}[r.Intn(4)]
+			if r.Chance(2) {
+				length = []uint32{1<<32 - 1, 1 << 31}[r.Intn(2)]
+			}
 		case 5: // command followed by garbage after a NUL (not trimmed: unknown command)
 			if len(cb) < 11 {
 				c[len(cb)+1] = byte(1 + r.Intn(255))
@@ -591,8 +641,16 @@ func run(magic uint32, stream []byte, line string) hx.Result {
 			res.Fail, res.Class = msg, class
 		}
 	}
-	if rr.alloc > pc.MAX_PAYLOAD_LEN+(8<<20) {
-		fail("alloc-beyond-max-payload", fmt.Sprintf("ReadMessage allocated %d bytes", rr.alloc))
+	// allocation budget of one ReadMessage call: the payload buffer (only if the announced length passes the cap)
+	// plus a generous multiple of the bytes actually received
+	budget := uint64(16*len(stream)) + (256 << 10)
+	if len(stream) >= 24 {
+		if hl := uint64(binary.LittleEndian.Uint32(stream[16:20])); hl <= pc.MAX_PAYLOAD_LEN && binary.LittleEndian.Uint32(stream[0:4]) == magic {
+			budget += hl
+		}
+	}
+	if rr.alloc > budget {
+		fail("alloc-beyond-budget", fmt.Sprintf("ReadMessage allocated %d bytes for a %d-byte stream (budget %d)", rr.alloc, len(stream), budget))
 	}
 	if rr.panicMsg != "" {
 		res.Out = "PANIC"
@@ -817,6 +875,13 @@ func corpus() []string {
 		fLine(defMagic+1, goodFrame([]byte("ping"), le(8, 9))),
 		fLine(defMagic, goodFrame([]byte("getaddr"), nil)),
 	}
+	// one witness per known class of "re-serialization differs from the payload"
+	rr := hx.NewRand(77)
+	for _, c := range []string{"ping", "pong", "verack", "getaddr", "addr", "getheaders", "getblocks", "inv", "getdata", "notfound",
+		"findnode", "findnodeack", "version", "members", "getmembers", "headers", "consensus"} {
+		out = append(out, d(c, cat(validPayload(rr, c, false, false), []byte{0xaa})))
+	}
+	out = append(out, d("version", validPayload(rr, "version", false, false)[:76]))
 	// checksum wrong in exactly one byte, each position
 	for i := 0; i < 4; i++ {
 		p := le(8, 9)
